@@ -8,55 +8,106 @@ reset -> insert* -> get at the use sites, is_active true only for the active uni
 derivative tables; R5.6 purity of the selection.  Not decided: the flow-balance integral itself.
 """
 import ast
+import copy
 from typing import Any, Dict, List, Optional, Sequence, Set, Tuple
 
 from ..core import AnalysisError, Loc, Report, Source, norm
 from ..flow import Ctx, FlowWalker, State
 from ..handlers import FnRef, concrete_handlers, implementations
 from ..pyfront import ClassInfo, Program, body_without_docstring, param_names, self_attr
-from ..selftest import Edit
+from ..normalize import canon, flat
+from ..selftest import Edit, Patch
 
 ID = "C05"
 LIFT = "jellyfysh/lifting/lifting.py"
 
 
+def _self_assigns(fn: ast.AST):
+    """(attribute, value) of every `self.x = v` / `self.x: T = v` in fn"""
+    for n in ast.walk(fn):
+        if isinstance(n, ast.Assign) and len(n.targets) == 1 and self_attr(n.targets[0]):
+            yield self_attr(n.targets[0]), n.value
+        elif isinstance(n, ast.AnnAssign) and n.value is not None and self_attr(n.target):
+            yield self_attr(n.target), n.value
+
+
 class LiftRoles:
+    """
+    Attribute roles from what the base class does with them (names are free): the two lists are the attributes initialised
+    with [] in __init__; `neg` receives the negated rate and `ids` the identifier in insert; `pos` is the scalar advanced by a
+    uniform draw, `rec` the scalar set to True, `sum` the remaining scalar.
+    """
+
     def __init__(self, prog: Program) -> None:
+        self.prog = prog
         self.base = prog.class_named("Lifting")
         self.schemes = [c for c in prog.subclasses("Lifting") if prog.is_concrete(c)]
         if len(self.schemes) < 3:
             raise AnalysisError(f"expected three lifting schemes, found {[c.name for c in self.schemes]}")
-        init = self.base.methods.get("__init__")
-        self.lists = [self_attr(n.targets[0]) for n in ast.walk(init) if isinstance(n, ast.Assign) and self_attr(n.targets[0])
-                      and isinstance(n.value, ast.List)]
-        self.scalars = [self_attr(n.targets[0]) for n in ast.walk(init) if isinstance(n, ast.Assign) and self_attr(n.targets[0])
-                        and isinstance(n.value, ast.Constant)]
-        g = self.schemes[0].methods.get("get_active_identifier")
+        init = self.method(self.base, "__init__")
+        ins = self.method(self.base, "insert")
+        if init is None or ins is None:
+            raise AnalysisError("Lifting.__init__ / Lifting.insert not found")
+        self.lists = [a for a, v in _self_assigns(init) if isinstance(v, ast.List)]
+        self.scalars = [a for a, v in _self_assigns(init) if isinstance(v, ast.Constant)]
+        reset = self.method(self.base, "reset")
+        for a, v in list(_self_assigns(reset) if reset is not None else []) + list(_self_assigns(ins)):
+            if isinstance(v, ast.Constant) and a not in self.scalars and a not in self.lists:
+                self.scalars.append(a)
+        ps = param_names(ins)
         self.neg = self.ids = self.pos = self.rec = None
-        for n in ast.walk(g):
-            if isinstance(n, ast.For) and isinstance(n.iter, ast.Call) and norm(n.iter.func) == "enumerate" and self_attr(n.iter.args[0]):
-                self.neg = self_attr(n.iter.args[0])
-            if isinstance(n, ast.Return) and isinstance(n.value, ast.Subscript) and self_attr(n.value.value):
-                self.ids = self_attr(n.value.value)
-        bg = self.base.methods.get("get_active_identifier")
-        for n in ast.walk(bg):
-            if isinstance(n, ast.If):
-                for a in ast.walk(n.test):
-                    if self_attr(a) in self.scalars:
-                        self.rec = self_attr(a)
-        for c in self.schemes:
-            gg = c.methods.get("get_active_identifier")
-            if gg is None:
+        for n in ast.walk(ins):
+            if isinstance(n, ast.Call) and isinstance(n.func, ast.Attribute) and n.func.attr == "append" and self_attr(n.func.value) \
+                    and len(n.args) == 1:
+                a = n.args[0]
+                if isinstance(a, ast.UnaryOp) and isinstance(a.op, ast.USub):
+                    self.neg = self_attr(n.func.value)
+                elif len(ps) == 3 and isinstance(a, ast.Name) and a.id == ps[1]:
+                    self.ids = self_attr(n.func.value)
+            if isinstance(n, ast.AugAssign) and self_attr(n.target) in self.scalars and any(
+                    isinstance(c, ast.Call) and norm(c.func).endswith("uniform") for c in ast.walk(n.value)):
+                self.pos = self_attr(n.target)
+        for a, v in _self_assigns(ins):
+            if a in self.scalars and isinstance(v, ast.Constant) and v.value is True:
+                self.rec = a
+        # second source (so that a defect in insert is reported as such and does not blind the analysis): the schemes' use
+        # of the attributes -- the list that is summed / iterated is `neg`, the list a return subscripts is `ids`, the scalar
+        # the base-class guard tests is `rec`, the other scalar the schemes read is `pos`
+        for c in self.schemes + [self.base]:
+            g = self.method(c, "get_active_identifier")
+            if g is None:
                 continue
-            for n in ast.walk(gg):
-                if isinstance(n, ast.Attribute) and self_attr(n) in self.scalars and self_attr(n) != self.rec \
+            for n in ast.walk(g):
+                if self.rec is None and c is self.base and isinstance(n, ast.If):
+                    for a in ast.walk(n.test):
+                        if self_attr(a) in self.scalars:
+                            self.rec = self_attr(a)
+                if self.ids is None and isinstance(n, ast.Return) and isinstance(n.value, ast.Subscript) and self_attr(n.value.value) in self.lists:
+                    self.ids = self_attr(n.value.value)
+                if self.neg is None and isinstance(n, ast.Call) and norm(n.func) in ("sum", "accumulate", "itertools.accumulate") and n.args \
+                        and self_attr(n.args[0]) in self.lists:
+                    self.neg = self_attr(n.args[0])
+        for c in self.schemes:
+            g = self.method(c, "get_active_identifier")
+            for n in ast.walk(g) if g is not None else []:
+                if self.pos is None and isinstance(n, ast.Attribute) and self_attr(n) in self.scalars and self_attr(n) != self.rec \
                         and isinstance(n.ctx, ast.Load):
                     self.pos = self_attr(n)
+        if len(self.lists) == 2:
+            if self.neg is None and self.ids in self.lists:
+                self.neg = [x for x in self.lists if x != self.ids][0]
+            if self.ids is None and self.neg in self.lists:
+                self.ids = [x for x in self.lists if x != self.neg][0]
         rest = [s for s in self.scalars if s not in (self.pos, self.rec)]
         self.sump = rest[0] if len(rest) == 1 else None
         if not all([self.neg, self.ids, self.pos, self.rec, self.sump]) or set(self.lists) != {self.neg, self.ids}:
             raise AnalysisError(f"lifting attributes not identified by role: neg={self.neg} ids={self.ids} pos={self.pos} "
                                 f"rec={self.rec} sum={self.sump}")
+
+    def method(self, cls: ClassInfo, name: str) -> Optional[ast.FunctionDef]:
+        """canonical form (private helpers inlined, locals propagated, ifs normalised) of the method defined in cls"""
+        fn = cls.methods.get(name)
+        return None if fn is None else canon(self.prog, cls, fn)
 
 
 def _eval_guard(test: ast.AST, env: Dict[str, bool], rate: str, active: str, rec: str) -> Optional[bool]:
@@ -130,7 +181,7 @@ def _effects(stmts: List[ast.stmt], env: Dict[str, bool], roles: LiftRoles, ps: 
 
 
 def check_insert(prog: Program, rep: Report, roles: LiftRoles) -> None:
-    ins = roles.base.methods.get("insert")
+    ins = roles.method(roles.base, "insert")
     ps = param_names(ins)
     if len(ps) != 3:
         raise AnalysisError("Lifting.insert signature changed")
@@ -171,7 +222,7 @@ def check_insert(prog: Program, rep: Report, roles: LiftRoles) -> None:
 
 def check_lockstep(prog: Program, rep: Report, roles: LiftRoles) -> None:
     for c in [roles.base] + roles.schemes:
-        for fn in c.methods.values():
+        for fn in [roles.method(c, m) for m in c.methods]:
             def count(stmts: List[ast.stmt]) -> List[Tuple[int, int]]:
                 paths = [(0, 0)]
                 for s in stmts:
@@ -201,11 +252,8 @@ def check_lockstep(prog: Program, rep: Report, roles: LiftRoles) -> None:
                    "the list of negated rates and the list of identifiers must grow together on every path (index i of one "
                    "belongs to index i of the other) and are never shrunk outside reset")
     for name in ("reset", "__init__"):
-        fn = roles.base.methods.get(name)
-        cleared = {}
-        for n in ast.walk(fn):
-            if isinstance(n, ast.Assign) and self_attr(n.targets[0]):
-                cleared[self_attr(n.targets[0])] = norm(n.value)
+        fn = roles.method(roles.base, name)
+        cleared = {a: norm(v) for a, v in _self_assigns(fn)}
         want = {roles.neg: "[]", roles.ids: "[]", roles.rec: "False"}
         ok = all(cleared.get(k) == v for k, v in want.items()) and cleared.get(roles.pos) in ("0.0", "0") \
             and cleared.get(roles.sump) in ("0.0", "0")
@@ -213,10 +261,126 @@ def check_lockstep(prog: Program, rep: Report, roles: LiftRoles) -> None:
                "reset must clear both lists, the random position, the positive sum and the active-recorded flag")
 
 
+IDX, NEG, IDS, PREFIX = "index", "neg[i]", "ids[i]", "prefix[i]"
+
+
+def _stream(e: ast.AST, roles: LiftRoles):
+    """what iterating over e yields per step i: IDX, NEG, IDS, PREFIX or a tuple of those; None if not understood"""
+    if self_attr(e) == roles.neg:
+        return NEG
+    if self_attr(e) == roles.ids:
+        return IDS
+    if isinstance(e, ast.Call):
+        f = norm(e.func)
+        if f in ("accumulate", "itertools.accumulate") and len(e.args) == 1 and not e.keywords and _stream(e.args[0], roles) == NEG:
+            return PREFIX
+        if f == "enumerate" and len(e.args) == 1 and not e.keywords:
+            inner = _stream(e.args[0], roles)
+            return None if inner is None else (IDX, inner)
+        if f == "zip" and e.args and not e.keywords:
+            return tuple(_stream(a, roles) or "?" for a in e.args)
+        if f == "range" and len(e.args) == 1 and isinstance(e.args[0], ast.Call) and norm(e.args[0].func) == "len" \
+                and self_attr(e.args[0].args[0]) in (roles.neg, roles.ids):
+            return IDX
+        if f in ("list", "tuple", "iter") and len(e.args) == 1:
+            return _stream(e.args[0], roles)
+    return None
+
+
+def _bind(target: ast.AST, desc, env: Dict[str, str]) -> bool:
+    if isinstance(target, ast.Name) and isinstance(desc, str):
+        env[target.id] = desc
+        return True
+    if isinstance(target, (ast.Tuple, ast.List)) and isinstance(desc, tuple) and len(target.elts) == len(desc):
+        return all(_bind(t, d, env) for t, d in zip(target.elts, desc))
+    return False
+
+
+def _walk_value(e: ast.AST, env: Dict[str, str], roles: LiftRoles) -> Optional[str]:
+    if isinstance(e, ast.Name):
+        return env.get(e.id)
+    if isinstance(e, ast.Subscript) and self_attr(e.value) in (roles.neg, roles.ids) and _walk_value(e.slice, env, roles) == IDX:
+        return NEG if self_attr(e.value) == roles.neg else IDS
+    return None
+
+
+def selection_walk(body: List[ast.stmt], roles: LiftRoles):
+    """
+    Abstract reading of a selection routine.  Returns (recognised, problems, position expression).  Recognised shapes: one loop
+    over index / negated rates / identifiers / running prefix sums (enumerate, zip, range(len), itertools.accumulate, or an
+    accumulator variable started at 0 and advanced by the current negated rate), a test `position <= prefix sum` that returns the
+    identifier of the same index, and a fallback return of the last identifier after the loop.
+    """
+    problems: List[str] = []
+    body = flat(body)
+    loops = [s for s in body if isinstance(s, ast.For)]
+    if len(loops) != 1 or loops[0].orelse:
+        return False, ["not exactly one loop"], None
+    loop = loops[0]
+    env: Dict[str, str] = {}
+    desc = _stream(loop.iter, roles)
+    if desc is None or not _bind(loop.target, desc, env):
+        return False, [f"iteration source not understood: {norm(loop.iter)}"], None
+    # accumulators: names set to 0 before the loop
+    zero = {s.targets[0].id for s in body[:body.index(loop)] if isinstance(s, ast.Assign) and isinstance(s.targets[0], ast.Name)
+            and isinstance(s.value, ast.Constant) and s.value.value == 0 and not isinstance(s.value.value, bool)}
+    state = {z: "prefix[i-1]" for z in zero}
+    position = None
+    tested = False
+    for st in flat(loop.body):
+        if isinstance(st, ast.AugAssign) and isinstance(st.op, ast.Add) and isinstance(st.target, ast.Name) and st.target.id in state:
+            if _walk_value(st.value, env, roles) == NEG and state[st.target.id] == "prefix[i-1]":
+                state[st.target.id] = PREFIX
+                env[st.target.id] = PREFIX
+            else:
+                problems.append(f"accumulator advanced by {norm(st.value)}")
+                state[st.target.id] = "?"
+                env.pop(st.target.id, None)
+            continue
+        if isinstance(st, ast.If) and not st.orelse and len(st.body) == 1 and isinstance(st.body[0], ast.Return) \
+                and isinstance(st.test, ast.Compare) and len(st.test.ops) == 1:
+            l, op, r = st.test.left, st.test.ops[0], st.test.comparators[0]
+            lv = _walk_value(l, env, roles) if not (isinstance(l, ast.Name) and l.id in state and state[l.id] != PREFIX) else state[l.id]
+            rv = _walk_value(r, env, roles) if not (isinstance(r, ast.Name) and r.id in state and state[r.id] != PREFIX) else state[r.id]
+            if rv is not None and lv is None:
+                pexpr, cum, le = l, rv, isinstance(op, ast.LtE)
+            elif lv is not None and rv is None:
+                pexpr, cum, le = r, lv, isinstance(op, ast.GtE)
+            else:
+                return False, [f"test not understood: {norm(st.test)}"], None
+            if any(isinstance(x, ast.Name) and (x.id in env or x.id in state) for x in ast.walk(pexpr)):
+                return False, [f"test not understood: {norm(st.test)}"], None
+            if cum != PREFIX:
+                problems.append(f"position compared with {cum}, not with the prefix sum up to and including the current rate")
+            if not le:
+                problems.append(f"comparison {norm(st.test)} is not `position <= prefix sum`")
+            if st.body[0].value is None or _walk_value(st.body[0].value, env, roles) != IDS:
+                problems.append(f"returns {norm(st.body[0].value) if st.body[0].value else None}, not the identifier of the same index")
+            position = pexpr
+            tested = True
+            continue
+        return False, [f"loop statement not understood: {norm(st)}"], None
+    if not tested:
+        return False, ["no test in the loop"], None
+    if any(v not in (PREFIX, "prefix[i-1]") for v in state.values()):
+        pass
+    if any(v == "prefix[i-1]" and k in {x.id for x in ast.walk(loop) if isinstance(x, ast.Name)} for k, v in state.items()):
+        problems.append("accumulator is not advanced in every iteration")
+    after = body[body.index(loop) + 1:]
+    fallback = after[0] if len(after) == 1 and isinstance(after[0], ast.Return) else None
+    ok_fb = False
+    if fallback is not None and isinstance(fallback.value, ast.Subscript) and self_attr(fallback.value.value) == roles.ids:
+        sl = norm(fallback.value.slice)
+        ok_fb = sl in ("-1", f"len(self.{roles.ids}) - 1", f"len(self.{roles.neg}) - 1")
+    if not ok_fb:
+        problems.append("the fallback after the walk is not the last identifier")
+    return True, problems, position
+
+
 def check_selection(prog: Program, rep: Report, roles: LiftRoles) -> None:
     forms = {}
     for c in roles.schemes:
-        fn = c.methods.get("get_active_identifier")
+        fn = roles.method(c, "get_active_identifier")
         loc = Loc(c.file, fn.lineno if fn else c.node.lineno, f"{c.name}.get_active_identifier")
         if fn is None:
             rep.ob("R5.3-selection-walk", None, loc, c.name, "not defined in the scheme class")
@@ -226,52 +390,39 @@ def check_selection(prog: Program, rep: Report, roles: LiftRoles) -> None:
         guard = isinstance(first, ast.Expr) and "super().get_active_identifier()" in norm(first)
         rep.ob("R5.3-guard-first", guard, loc, first if first is not None else c.name,
                "the scheme must first run the base-class guard (active unit recorded)")
-        loops = [n for n in body if isinstance(n, ast.For)]
-        ok = False
-        posform = None
-        if len(loops) == 1 and isinstance(loops[0].iter, ast.Call) and norm(loops[0].iter.func) == "enumerate" \
-                and self_attr(loops[0].iter.args[0]) == roles.neg and isinstance(loops[0].target, ast.Tuple):
-            idx, rate = (norm(e) for e in loops[0].target.elts)
-            lb = loops[0].body
-            acc = [s for s in lb if isinstance(s, ast.AugAssign) and isinstance(s.op, ast.Add) and norm(s.value) == rate]
-            tests = [s for s in lb if isinstance(s, ast.If)]
-            if len(acc) == 1 and len(tests) == 1 and len(lb) == 2 and lb.index(acc[0]) < lb.index(tests[0]):
-                accv = norm(acc[0].target)
-                t = tests[0].test
-                ret = tests[0].body[0] if tests[0].body else None
-                inits = [s for s in body if isinstance(s, ast.Assign) and norm(s.targets[0]) == accv and isinstance(s.value, ast.Constant)
-                         and s.value.value == 0]
-                if isinstance(t, ast.Compare) and isinstance(t.ops[0], ast.LtE) and norm(t.comparators[0]) == accv and inits \
-                        and isinstance(ret, ast.Return) and norm(ret.value) == f"self.{roles.ids}[{idx}]" and not tests[0].orelse:
-                    last = body[-1]
-                    ok = isinstance(last, ast.Return) and norm(last.value) == f"self.{roles.ids}[-1]" and body.index(loops[0]) == len(body) - 2
-                    pv = t.left
-                    # resolve the position expression
-                    def inline_locals(e: ast.AST) -> str:
-                        class T(ast.NodeTransformer):
-                            def visit_Name(self, node):
-                                d = [s for s in body if isinstance(s, ast.Assign) and isinstance(s.targets[0], ast.Name)
-                                     and s.targets[0].id == node.id]
-                                if len(d) == 1 and node.id != accv and isinstance(node.ctx, ast.Load):
-                                    return T().visit(ast.parse(ast.unparse(d[0].value), mode="eval").body)
-                                return node
-                        return norm(T().visit(ast.parse(ast.unparse(e), mode="eval").body))
-                    if self_attr(pv) == roles.pos:
-                        re = [s for s in body if isinstance(s, ast.Assign) and self_attr(s.targets[0]) == roles.pos]
-                        posform = "pos" if not re else inline_locals(re[-1].value)
-                    elif isinstance(pv, ast.Name):
-                        posform = inline_locals(pv)
-        rep.ob("R5.3-selection-walk", ok, loc, f"{c.name}: cumulative walk over the negated rates",
+        recognised, problems, pv = selection_walk(body, roles)
+        if not recognised:
+            rep.ob("R5.3-selection-walk", None, loc, f"{c.name}: cumulative walk over the negated rates",
+                   f"selection idiom not recognised ({problems[0]})")
+            continue
+        rep.ob("R5.3-selection-walk", not problems, loc, f"{c.name}: cumulative walk over the negated rates",
                "the selection must walk the cumulative sums of the negated rates, return the first identifier whose prefix sum "
-               "reaches the position (<=) and fall back to the last one")
-        if ok:
-            s_neg = f"sum(self.{roles.neg})"
-            allowed = {"pos": "pos", f"{s_neg} - self.{roles.pos}": "sum(neg) - pos",
-                       f"random.uniform(0.0, {s_neg})": "uniform(0, sum(neg))", f"random.uniform(0, {s_neg})": "uniform(0, sum(neg))"}
-            forms[c.name] = allowed.get(posform)
-            rep.ob("R5.3-position-form", posform in allowed, loc, f"{c.name}: position = {posform}",
-                   "the position on the stacked negative rates must be the recorded random position, its reflection "
-                   "sum(neg) - position, or a fresh uniform(0, sum(neg)): any other map does not transport the flow")
+               f"reaches the position (<=) and fall back to the last one: {'; '.join(problems)}")
+        if problems:
+            continue
+
+        def inline_locals(e: ast.AST) -> str:
+            class T(ast.NodeTransformer):
+                def visit_Name(self, node):
+                    d = [s for s in body if isinstance(s, ast.Assign) and isinstance(s.targets[0], ast.Name)
+                         and s.targets[0].id == node.id]
+                    if len(d) == 1 and isinstance(node.ctx, ast.Load):
+                        return T().visit(ast.parse(ast.unparse(d[0].value), mode="eval").body)
+                    return node
+            return norm(T().visit(copy.deepcopy(e)))
+        posform = None
+        if self_attr(pv) == roles.pos:
+            re_ = [v for s_ in body for a, v in _self_assigns(s_) if a == roles.pos]
+            posform = "pos" if not re_ else inline_locals(re_[-1])
+        else:
+            posform = inline_locals(pv)
+        s_neg = f"sum(self.{roles.neg})"
+        allowed = {"pos": "pos", f"self.{roles.pos}": "pos", f"{s_neg} - self.{roles.pos}": "sum(neg) - pos",
+                   f"random.uniform(0.0, {s_neg})": "uniform(0, sum(neg))", f"random.uniform(0, {s_neg})": "uniform(0, sum(neg))"}
+        forms[c.name] = allowed.get(posform)
+        rep.ob("R5.3-position-form", posform in allowed, loc, f"{c.name}: position = {posform}",
+               "the position on the stacked negative rates must be the recorded random position, its reflection "
+               "sum(neg) - position, or a fresh uniform(0, sum(neg)): any other map does not transport the flow")
     rep.extra["selection_positions"] = forms
 
 
@@ -388,13 +539,13 @@ def check_antisymmetry(prog: Program, rep: Report) -> None:
 
 def check_purity(prog: Program, rep: Report, roles: LiftRoles) -> None:
     for c in roles.schemes + [roles.base]:
-        fn = c.methods.get("get_active_identifier")
+        fn = roles.method(c, "get_active_identifier")
         if fn is None:
             continue
         body = ast.Module(body=body_without_docstring(fn), type_ignores=[])
         names = {n.id for n in ast.walk(body) if isinstance(n, ast.Name) and isinstance(n.ctx, ast.Load)}
         local = {n.id for n in ast.walk(body) if isinstance(n, ast.Name) and isinstance(n.ctx, ast.Store)}
-        foreign = names - local - {"self", "random", "super", "enumerate", "sum", "len", "range", "LiftingSchemeError", "zip", "min", "max"}
+        foreign = names - local - {"self", "random", "super", "enumerate", "sum", "len", "range", "LiftingSchemeError", "zip", "min", "max", "accumulate", "itertools"}
         writes = [n for n in ast.walk(fn) if isinstance(n, ast.Call) and isinstance(n.func, ast.Attribute)
                   and n.func.attr in ("append", "pop", "remove", "insert", "clear") and self_attr(n.func.value)]
         rep.ob("R5.6-selection-pure", not foreign and not writes, Loc(c.file, fn.lineno, f"{c.name}.get_active_identifier"),
@@ -461,6 +612,17 @@ MUTANTS = [
          "local_unit.identifier, local_unit is self._active_leaf_unit)", "local_unit.identifier, True)", "R5.4", nth=0),
     Edit("fixed separations: rate of the active unit for everyone", "jellyfysh/event_handler/fixed_separations_event_handler_with_piecewise_constant_bounding_potential.py",
          "self._lifting.insert(potential_derivatives[index], leaf_unit.identifier,", "self._lifting.insert(active_unit_derivative, leaf_unit.identifier,", "R5.4"),
+]
+MUTANTS += [
+    Patch("refactored (accumulate idiom) + strict comparison", "refactorings/C05_R3.diff",
+          [Edit("", "jellyfysh/lifting/inside_first_lifting.py", "if self._random_position <= upper_end:", "if self._random_position < upper_end:")], "R5.3"),
+    Patch("refactored (accumulate idiom) + identifiers shifted", "refactorings/C05_R3.diff",
+          [Edit("", "jellyfysh/lifting/ratio_lifting.py", "zip(self._associated_identifiers, upper_ends)", "zip(self._associated_identifiers[1:], upper_ends)")], "R5.3"),
+    Patch("refactored (walk in base helper) + test before accumulation", "refactorings/C05_R1.diff",
+          [Edit("", LIFT, "            summed_lifting_rate += lifting_rate\n            if position <= summed_lifting_rate:\n                return self._associated_identifiers[index]\n",
+                "            if position <= summed_lifting_rate:\n                return self._associated_identifiers[index]\n            summed_lifting_rate += lifting_rate\n")], "R5.3"),
+    Patch("refactored (shared clear helper) + flag not cleared", "refactorings/C05_R2.diff",
+          [Edit("", LIFT, "        self._active_recorded: bool = False\n", "")], "R5"),
 ]
 TWINS = [
     Edit("insert: positive sum updated after the branch", LIFT,
